@@ -11,6 +11,7 @@ def parseC16Op (nd : Nat) (s : String) : Option Op :=
   match s.splitOn "." with
   | ["so", "1"] => some (.sessOpen .h1)
   | ["so", "2"] => some (.sessOpen .h2)
+  | ["so", "3"] => some (.sessOpen .h3)
   | ["sc", i] => do some (.sessClose (← i.toNat?))
   | ["to", i, k] => do some (.tunOpen (← i.toNat?) (← parseTarget k))
   | ["up", t, n] => do some (.up (← t.toNat?) (← n.toNat?))
@@ -27,7 +28,7 @@ def parseC16Op (nd : Nat) (s : String) : Option Op :=
   | _ => none
 
 def fmtCells (c : Cells) : String :=
-  s!"s{c.s1}/{c.s2} t{c.tcp} u{c.udp} up{c.up1}/{c.up2} dn{c.dn1}/{c.dn2}"
+  s!"s{c.s1}/{c.s2}/{c.s3} t{c.tcp} u{c.udp} up{c.up1}/{c.up2}/{c.up3} dn{c.dn1}/{c.dn2}/{c.dn3}"
 
 def c16Run (c : Cfg) (listener : Bool) (ops : List Op) : String := Id.run do
   let mut s : St := {}
